@@ -192,6 +192,9 @@ def _updater(spec, base, idx, go_path):
         # the updaters name the one pyramid directory in different, equivalent ways (a trailing separator, a relative path,
         # a detour through '..', a symbolic link) - separate jobs started from different places with different habits
         k = idx % 5
+        # (the pyramid's root directory exists before anybody refers to it through a link or a '..' detour: a dangling link is
+        # not a spelling of the directory - a false alarm of this harness in the seed sweep, FileNotFoundError in updater 4)
+        os.makedirs(base, exist_ok=True)
         if k == 1:
             base = base + os.sep
         elif k == 2:
